@@ -153,6 +153,8 @@ func main() {
 		os.Exit(setup(verifDir, repo))
 	case "manifest":
 		writeManifest(verifDir)
+	case "determinism":
+		os.Exit(determinism(verifDir, repo, os.Args[2:]))
 	case "check":
 		if len(os.Args) < 3 {
 			die2("check needs a property id")
@@ -754,4 +756,88 @@ func writeEvidence(verifDir, id, tier string, seed uint64, meta propInfo, agg re
 	b, _ := json.MarshalIndent(ev, "", " ")
 	os.MkdirAll(filepath.Join(verifDir, "evidence"), 0o755)
 	os.WriteFile(filepath.Join(verifDir, "evidence", id+".json"), b, 0o644)
+}
+
+// determinism is the self-test of DESIGN.md 2.11: for each property the same run indices
+// are executed in separate processes at GOMAXPROCS 1, 4 and 16 (the last twice); the
+// per-run event-log hashes must be identical. Exit 2 on any difference.
+func determinism(verifDir, repo string, ids []string) int {
+	if len(ids) == 0 {
+		for id := range propMeta {
+			ids = append(ids, id)
+		}
+		sort.Strings(ids)
+	}
+	nruns := 60
+	if s := os.Getenv("VERIF_RUNS"); s != "" {
+		if v, err := strconv.Atoi(s); err == nil {
+			nruns = v
+		}
+	}
+	g, err := simgen(verifDir, repo, baseEnv())
+	if err != nil {
+		die2("simgen: %v", err)
+	}
+	bad := 0
+	for _, id := range ids {
+		meta := propMeta[id]
+		var bin string
+		if meta.Pkg == "pam" {
+			bin, err = buildPam(verifDir, repo)
+		} else {
+			bin, err = buildHarness(verifDir, repo, g, meta.Pkg)
+		}
+		if err != nil {
+			die2("build: %v", err)
+		}
+		pamsim := ""
+		if meta.Pkg == "sasl" {
+			pamsim, _ = buildPam(verifDir, repo)
+		}
+		scratch, _ := os.MkdirTemp(filepath.Join(verifDir, ".build"), "det-"+id+"-")
+		var ref []byte
+		ok := true
+		for i, procs := range []string{"1", "4", "16", "16"} {
+			hl := filepath.Join(scratch, fmt.Sprintf("h%d", i))
+			wd := filepath.Join(scratch, fmt.Sprintf("wd%d", i))
+			os.MkdirAll(wd, 0o755)
+			cmd := workerCmd(bin, meta, wd)
+			cmd.Env = append(baseEnv(), "VERIF_PROP="+id, "VERIF_TIER=quick", "VERIF_BASE=7", "VERIF_FROM=0", fmt.Sprintf("VERIF_TO=%d", nruns), "VERIF_STRIDE=1",
+				"VERIF_BUDGET_MS=600000", "VERIF_OUT="+filepath.Join(scratch, "out"), "VERIF_HASHLOG="+hl, "GOMAXPROCS="+procs, "VERIF_NOMIN=1", "VERIF_PAMSIM="+pamsim)
+			out, err := cmd.CombinedOutput()
+			b, _ := os.ReadFile(hl)
+			if len(b) == 0 {
+				fmt.Printf("determinism %s: no output at GOMAXPROCS=%s (%v)\n%s\n", id, procs, err, firstLines(string(out), 20))
+				ok = false
+				break
+			}
+			if i == 0 {
+				ref = b
+			} else if string(b) != string(ref) {
+				ok = false
+				ra, rb := strings.Split(string(ref), "\n"), strings.Split(string(b), "\n")
+				for k := range ra {
+					if k >= len(rb) || ra[k] != rb[k] {
+						fmt.Printf("determinism %s: run differs at GOMAXPROCS=%s vs 1:\n  %s\n  %s\n", id, procs, ra[k], func() string {
+							if k < len(rb) {
+								return rb[k]
+							}
+							return "(missing)"
+						}())
+						break
+					}
+				}
+			}
+		}
+		os.RemoveAll(scratch)
+		if ok {
+			fmt.Printf("determinism %s: %d runs x 4 processes (GOMAXPROCS 1/4/16/16) identical\n", id, nruns)
+		} else {
+			bad++
+		}
+	}
+	if bad > 0 {
+		return 2
+	}
+	return 0
 }
